@@ -124,6 +124,8 @@ def case_digitize(draw):
         else:
             base = gs[0]
             gs = [base] + [[(g + 4e-9 * (c + 1)) if how == "shift" else g * (1 + 1e-7 * (c + 1)) for g in base] for c in range(d - 1)]
+            if not all(np.isfinite(v) for g in gs for v in g):   # perturbing a grid near the largest double overflowed
+                gs = [base] * d
     n = draw(st.integers(0, 6))
     rows = []
     for _ in range(n):
